@@ -2,7 +2,7 @@ CONSTANTS
   MaxSeq = 2
   Triples = TRUE
   FilePairs = "full"
-  ReducedPairVC = {"zero", "max", "inc", "filelen", "tablelen", "self", "eqnext", "prev-1"}
+  ReducedPairVC = {"zero", "max", "inc", "filelen", "tablelen", "self", "eqnext", "prev-1", "der-1"}
 SPECIFICATION Spec
 INVARIANTS LemmasAndEmit Sanity
 CHECK_DEADLOCK FALSE
